@@ -32,6 +32,9 @@ type C03Case struct {
 	Fault string `json:"fault,omitempty"`
 	// FaultOp: the storage operation that misbehaves ("" = the user lookup)
 	FaultOp string `json:"fault_op,omitempty"`
+	// KeyWindow: validity window (seconds relative to now, "from:to") of the response-signing certificate the storage hands
+	// out; "" = the static long-lived one. A certificate in its last minutes, or one that became valid a moment ago, is still valid.
+	KeyWindow string `json:"key_window,omitempty"`
 }
 
 var timeFormats = []string{"", "", time.RFC3339, "2006-01-02T15:04:05.000000000Z", "2006-01-02T15:04:05Z", time.RFC3339Nano}
@@ -80,6 +83,10 @@ func genC03Case(t *rapid.T) C03Case {
 			// the application-to-entity lookup fails (with or without handing a value back)
 			c.FaultOp, c.Fault = "GetEntityIDByAppID", rapid.SampledFrom([]string{"error", "timeout", "errval"}).Draw(t, "fault2")
 		}
+	}
+	if rapid.IntRange(0, 4).Draw(t, "keywindow") == 0 {
+		// about to expire (inside the assertion lifetime), valid since a moment ago, or a short-lived certificate: all valid now
+		c.KeyWindow = rapid.SampledFrom([]string{"-3600:90", "-3600:240", "-30:86400", "-60:200", "-86400:3600"}).Draw(t, "keywindowv")
 	}
 	return c
 }
@@ -332,6 +339,9 @@ func TestC03(t *testing.T) {
 		hr := obs.HTTPReq{Method: "GET", Path: c.Spec.IdP.Route("callback"), RawQuery: "id=" + qesc(req.ID), Host: c.Host, Headers: c.Headers}
 		if c.Method == "POST" {
 			hr = obs.HTTPReq{Method: "POST", Path: c.Spec.IdP.Route("callback"), ContentType: "application/x-www-form-urlencoded", Body: "id=" + qesc(req.ID), Host: c.Host, Headers: c.Headers}
+		}
+		if c.KeyWindow != "" {
+			w.Store.RotateResponseKey("idp-response@" + c.KeyWindow)
 		}
 		if c.Fault != "" {
 			op := c.FaultOp
